@@ -13,6 +13,12 @@ package harness
 // AddDataAccess / RemoveDataAccess) are then part of what is compared, and after an accepted
 // message the stored entry is read back.
 //
+// Scope writes change any subset of the scope's fields at once (owners, data access,
+// require_party_rollup, specification, value owner); scope writes / deletions also run on scopes
+// that HAVE a value owner (`vo=`: the holder of the scope's coin in the real bank module; `pvo=`:
+// the value_owner_address of the message).  Stored sessions may have the shape another rollup
+// regime left behind.  Whole histories of messages: signershist_test.go.
+//
 // Address names (fixed convention shared with lean/PvModel/SignersDriver.lean):
 // A B C D ordinary accounts (sequence 7), W V smart-contract accounts (base account,
 // sequence 0, no pubkey: what isWasmAccount detects), N valid address without account,
@@ -454,6 +460,31 @@ func (e *signersEnv) showParties(ps []types.Party) string {
 	return JoinOr(out, "|")
 }
 
+// voAddr: the bech32 of a value-owner name (`-` or absent: none).
+func (e *signersEnv) voAddr(n string) (string, error) {
+	if n == "" || n == "-" {
+		return "", nil
+	}
+	b, ok := e.bech[n]
+	if !ok || !signersGValidName(n) || n == "N" {
+		return "", fmt.Errorf("bad value owner %q", n)
+	}
+	return b, nil
+}
+
+// showVO: the name of the holder of the scope's coin (`-`: nobody).
+func (e *signersEnv) showVO(ctx sdk.Context) string {
+	scopeID, _, _, _, _, _, _ := e.ids()
+	vo, err := e.app.MetadataKeeper.GetScopeValueOwner(ctx, scopeID)
+	if err != nil {
+		return "?"
+	}
+	if len(vo) == 0 {
+		return "-"
+	}
+	return e.sym(vo.String())
+}
+
 // showScope renders a stored scope in the op-line syntax (rollup/number of data access entries/owners).
 func (e *signersEnv) showScope(sc types.Scope) string {
 	r := "0"
@@ -540,6 +571,17 @@ func (e *signersEnv) exec(line string) (res string) {
 		return "bad-op"
 	}
 	ms := metadatakeeper.NewMsgServerImpl(k)
+	// value owners (optional keys of wscope / dscope): `vo` the stored scope's, `pvo` the message's
+	_, hasVO := op.kv["vo"]
+	_, hasPVO := op.kv["pvo"]
+	vo, err := e.voAddr(op.kv["vo"])
+	if err != nil {
+		return "bad-op"
+	}
+	pvo, err := e.voAddr(op.kv["pvo"])
+	if err != nil {
+		return "bad-op"
+	}
 	storedScope := func(err error) string {
 		c := e.class(err)
 		if err != nil {
@@ -548,6 +590,9 @@ func (e *signersEnv) exec(line string) (res string) {
 		sc, found := k.GetScope(ctx, scopeID)
 		if !found {
 			return c + " stored=none"
+		}
+		if hasVO || hasPVO {
+			return c + " stored=" + e.showScope(sc) + "@" + e.showVO(ctx)
 		}
 		return c + " stored=" + e.showScope(sc)
 	}
@@ -611,11 +656,17 @@ func (e *signersEnv) exec(line string) (res string) {
 			k.SetScopeSpecification(ctx, types.ScopeSpecification{SpecificationId: scopeSpecID, PartiesInvolved: roles})
 		}
 		if existing != nil {
-			if err = k.SetScope(ctx, e.mkScope(existing)); err != nil {
+			// SetScope with a value owner mints the scope's coin to that address
+			ex := e.mkScope(existing)
+			ex.ValueOwnerAddress = vo
+			if err = k.SetScope(ctx, ex); err != nil {
 				return "bad-op"
 			}
+		} else if vo != "" {
+			return "bad-op"
 		}
 		prop := e.mkScope(proposed)
+		prop.ValueOwnerAddress = pvo
 		if nr, ok := op.kv["newroles"]; ok {
 			// the proposed scope names another scope specification
 			newRoles, err4 := signersRoles(nr)
@@ -639,7 +690,9 @@ func (e *signersEnv) exec(line string) (res string) {
 		if roleStr != "none" {
 			k.SetScopeSpecification(ctx, types.ScopeSpecification{SpecificationId: scopeSpecID, PartiesInvolved: roles})
 		}
-		if err = k.SetScope(ctx, e.mkScope(scope)); err != nil {
+		dsc := e.mkScope(scope)
+		dsc.ValueOwnerAddress = vo
+		if err = k.SetScope(ctx, dsc); err != nil {
 			return "bad-op"
 		}
 		if via {
@@ -904,6 +957,18 @@ type signersGGen struct {
 	signers []string
 	grants  []string
 	mt      string
+	// addresses signersFor also covers (mostly): a value owner that must sign; reset by signersFor
+	alsoCover []string
+	// histories (stream signershist): the grants are those of the history — stored once, the
+	// same on every line — and the stored state is given, not invented
+	hist       bool
+	histGrants []string
+}
+
+// applies: an authorization for message type t counts for message type mt
+func signersGApplies(t, mt string) bool {
+	t = strings.TrimSuffix(t, "!")
+	return t == mt || signersGParent[mt] == t
 }
 
 func signersIsWasmName(a string) bool { return a == "W" || a == "V" }
@@ -966,6 +1031,16 @@ func (g *signersGGen) parties(n int, special, optAllowed, unique bool) []signers
 }
 
 func (g *signersGGen) roles(from []signersGParty, max int) []int {
+	if g.hist && len(from) > 0 && g.r.Chance(80) {
+		// histories must make progress: mostly role lists the parties can fill (one party per entry)
+		var rs []int
+		for _, p := range from {
+			if len(rs) < max && g.r.Chance(55) {
+				rs = append(rs, p.role)
+			}
+		}
+		return rs
+	}
 	n := g.r.Intn(max + 1)
 	var rs []int
 	for i := 0; i < n; i++ {
@@ -1014,6 +1089,23 @@ func (g *signersGGen) cover(a string) {
 	if signersGContains(g.signers, a) {
 		return
 	}
+	if g.hist {
+		// one of the history's grants may stand in for the signature
+		if g.r.Chance(40) {
+			for _, gr := range g.histGrants {
+				f := strings.Split(gr, ":")
+				pair := strings.Split(f[0], ">")
+				if pair[0] == a && signersGApplies(f[1], g.mt) {
+					if !signersGContains(g.signers, pair[1]) {
+						g.signers = append(g.signers, pair[1])
+					}
+					return
+				}
+			}
+		}
+		g.signers = append(g.signers, a)
+		return
+	}
 	if signersGValidName(a) && g.r.Chance(30) {
 		var cands []string
 		for _, s := range g.signers {
@@ -1060,6 +1152,12 @@ func (g *signersGGen) signersFor(must []signersGParty, avail []signersGParty, ro
 			g.cover(p.addr)
 		}
 	}
+	for _, a := range g.alsoCover {
+		if g.r.Chance(pCover) {
+			g.cover(a)
+		}
+	}
+	g.alsoCover = nil
 	used := map[int]bool{}
 	for _, role := range roles {
 		if !g.r.Chance(pCover) {
@@ -1089,7 +1187,7 @@ func (g *signersGGen) signersFor(must []signersGParty, avail []signersGParty, ro
 		g.cover(avail[pick].addr)
 	}
 	// noise grants
-	for i, n := 0, g.r.Intn(3); i < n && g.r.Chance(60); i++ {
+	for i, n := 0, g.r.Intn(3); !g.hist && i < n && g.r.Chance(60); i++ {
 		granter, grantee := g.addr(false), g.addr(false)
 		if len(mention) > 0 && g.r.Chance(70) {
 			granter = Pick(g.r, mention)
@@ -1110,7 +1208,10 @@ func (g *signersGGen) signersFor(must []signersGParty, avail []signersGParty, ro
 		sort.SliceStable(g.signers, func(i, j int) bool { return signersIsWasmName(g.signers[i]) && !signersIsWasmName(g.signers[j]) })
 	}
 	// a smart contract that signs with others after it: those often authorize it
-	if len(g.signers) > 1 && signersIsWasmName(g.signers[0]) && g.r.Chance(50) {
+	if g.hist {
+		g.grants = append([]string{}, g.histGrants...)
+	}
+	if !g.hist && len(g.signers) > 1 && signersIsWasmName(g.signers[0]) && g.r.Chance(50) {
 		for _, s := range g.signers[1:] {
 			if signersGValidName(s) && s != g.signers[0] && g.r.Chance(85) {
 				g.grants = append(g.grants, s+">"+g.signers[0]+":"+g.grantType())
@@ -1289,13 +1390,13 @@ func (g *signersGGen) removal(owners []signersGParty) []string {
 // genMOwners: msgServer.AddScopeOwner / DeleteScopeOwner on a stored scope with 1-5 owners.
 func (g *signersGGen) genMOwners(rollup bool, owners []signersGParty, other int) string {
 	// longer owner lists, so that a changed party can sit before, between and after others
-	for n := g.r.Intn(3); n > 0 && len(owners) < 5; n-- {
+	for n := g.r.Intn(3); !g.hist && n > 0 && len(owners) < 5; n-- {
 		p := g.party(false, rollup)
 		if !signersGHas(owners, p) {
 			owners = append(owners, p)
 		}
 	}
-	for tries := 0; len(owners) < 2 && tries < 5 && g.r.Chance(85); tries++ {
+	for tries := 0; !g.hist && len(owners) < 2 && tries < 5 && g.r.Chance(85); tries++ {
 		if p := g.party(false, rollup); !signersGHas(owners, p) {
 			owners = append(owners, p)
 		}
@@ -1305,7 +1406,7 @@ func (g *signersGGen) genMOwners(rollup bool, owners []signersGParty, other int)
 		mustOwners = signersGAllRequired(owners)
 	}
 	sc := signersGScope(rollup, other, owners)
-	if g.r.Chance(3) {
+	if !g.hist && g.r.Chance(3) {
 		sc = "none"
 	}
 	var body string
@@ -1369,6 +1470,178 @@ func (g *signersGGen) genMOwners(rollup bool, owners []signersGParty, other int)
 	return fmt.Sprintf("mowners mt=%s scope=%s %s roles=%s", g.mt, sc, body, signersGRoles(roles)) + g.tail()
 }
 
+// valueOwner: a value-owner address (never a marker): mostly an ordinary account, sometimes a
+// smart contract.  Not `N`: an address without account gets a fresh base account (sequence 0, no
+// public key) the moment it receives the scope's coin, which isWasmAccount takes for a contract.
+func (g *signersGGen) valueOwner() string {
+	if g.r.Chance(82) {
+		return Pick(g.r, signersGNormal)
+	}
+	return Pick(g.r, signersGWasm)
+}
+
+// genWScope: a scope write.  On an existing scope the write changes any SUBSET of the fields
+// (owners, data access, require_party_rollup, specification, value owner) at once — or nothing.
+//
+// histVO: in a history, the stored scope's value owner (`""`: the scope does not exist, the write
+// creates it — then rollup/owners/other are what it proposes).
+func (g *signersGGen) genWScope(rollup bool, owners []signersGParty, other int, mustOwners []signersGParty, histVO string) string {
+	g.mt = "WriteScope"
+	var roles []int
+	existing := "none"
+	propRollup, propOther, propOwners := rollup, other, owners
+	var must, avail []signersGParty
+	if (!g.hist && g.r.Chance(75)) || (g.hist && histVO != "") {
+		existing = signersGScope(rollup, other, owners)
+		must, avail = mustOwners, owners
+		chOwners, chOther, chRollup := g.r.Chance(28), g.r.Chance(25), g.r.Chance(22)
+		if g.hist {
+			// the rollup flag changes often: sessions and records then outlive the regime they were written under
+			chRollup = g.r.Chance(45)
+		}
+		if g.r.Chance(22) {
+			chOwners, chOther, chRollup = false, false, false
+		}
+		if !chOwners && g.r.Bool() && len(owners) > 1 {
+			// unchanged (Scope.Equals ignores the order of the owners)
+			propOwners = append([]signersGParty{}, owners...)
+			for i, j := 0, len(propOwners)-1; i < j; i, j = i+1, j-1 {
+				propOwners[i], propOwners[j] = propOwners[j], propOwners[i]
+			}
+		}
+		if chOther {
+			propOther = (other + 1 + g.r.Intn(2)) % 3
+		}
+		if chRollup {
+			propRollup = !rollup
+		}
+		if chOwners {
+			fresh := g.parties(1+g.r.Intn(3), false, propRollup, true)
+			switch y := g.r.Intn(100); {
+			case y < 30: // other owners altogether
+				propOwners = fresh
+			case y < 58: // more owners
+				propOwners = append(append([]signersGParty{}, owners...), fresh...)
+				var uniq []signersGParty
+				for _, p := range propOwners {
+					if !signersGHas(uniq, p) {
+						uniq = append(uniq, p)
+					}
+				}
+				propOwners = uniq
+			case y < 72 && len(owners) > 1: // one owner less
+				i := g.r.Intn(len(owners))
+				propOwners = append(append([]signersGParty{}, owners[:i]...), owners[i+1:]...)
+			case y < 86: // the same owners, one with another role
+				propOwners = append([]signersGParty{}, owners...)
+				i := g.r.Intn(len(propOwners))
+				q := propOwners[i]
+				q.role = g.roleFor(q.addr)
+				if !signersGHas(propOwners, q) {
+					propOwners[i] = q
+				} else {
+					propOwners = append(propOwners, fresh...)
+				}
+			default: // the same owners, one with the other optional flag (needs rollup)
+				propOwners = append([]signersGParty{}, owners...)
+				i := g.r.Intn(len(propOwners))
+				propOwners[i].opt = !propOwners[i].opt
+			}
+			var uniq []signersGParty
+			for _, p := range propOwners {
+				if !signersGHas(uniq, p) {
+					uniq = append(uniq, p)
+				}
+			}
+			propOwners = uniq
+		}
+		if !propRollup {
+			// Scope.ValidateBasic: no optional owner without rollup
+			propOwners = signersGAllRequired(propOwners)
+		}
+	}
+	// the spec's roles: mostly such that the proposed owners have them
+	if g.r.Chance(75) {
+		roles = g.roles(propOwners, 2)
+	} else {
+		roles = g.roles(owners, 2)
+	}
+	if !rollup {
+		avail = nil
+	}
+	newRoles, coverRoles := "", roles
+	var newCover []int
+	if !g.hist && existing != "none" && g.r.Chance(20) {
+		// the proposed scope names another specification (its roles come from the proposed owners)
+		nr := g.roles(propOwners, 2)
+		if len(nr) == 0 { // a scope specification names at least one role
+			nr = []int{propOwners[0].role}
+		}
+		// the stored scope fits its own specification
+		roles = nil
+		for _, p := range g.subset(owners, 60) {
+			roles = append(roles, p.role)
+		}
+		if len(roles) == 0 {
+			roles = []int{owners[0].role}
+		}
+		coverRoles = roles
+		newRoles = " newroles=" + signersGRoles(nr)
+		newCover = nr
+		if g.r.Chance(30) {
+			// signers that only satisfy the NAMED specification: rejected since 89425229f
+			coverRoles = nr
+		}
+	}
+	rolesStr := signersGRoles(roles)
+	if newRoles != "" && g.r.Chance(15) {
+		// the stored scope's specification was deleted: the named one governs
+		rolesStr, coverRoles = "none", newCover
+	}
+	// value owners: the stored scope's (held in the bank module) and the one the message names
+	voStr := ""
+	mention := signersGAddrsOf(owners, propOwners)
+	if g.hist || g.r.Chance(45) {
+		vo, pvo := "-", "-"
+		if g.hist {
+			if existing != "none" {
+				vo = histVO
+			}
+		} else if existing != "none" && g.r.Chance(80) {
+			vo = g.valueOwner()
+		}
+		z := g.r.Intn(100)
+		if g.hist && g.r.Chance(40) {
+			z = 0 // in a history most writes leave the value owner alone
+		}
+		switch {
+		case z < 22:
+		case z < 36:
+			pvo = vo
+		default:
+			pvo = g.valueOwner()
+		}
+		voStr = " vo=" + vo + " pvo=" + pvo
+		for _, a := range []string{vo, pvo} {
+			if a != "-" && !signersGContains(mention, a) {
+				mention = append(mention, a)
+			}
+		}
+		if vo != "-" && pvo != "-" && vo != pvo {
+			// the value owner changes: the stored one must sign
+			g.alsoCover = []string{vo}
+			if g.r.Chance(35) {
+				// ONLY the value owner signs: enough iff nothing else changes
+				must, avail, coverRoles = nil, nil, nil
+			}
+		} else if vo != "-" && g.r.Chance(30) {
+			g.alsoCover = []string{vo}
+		}
+	}
+	g.signersFor(must, avail, coverRoles, mention)
+	return fmt.Sprintf("wscope existing=%s proposed=%s roles=%s%s%s", existing, signersGScope(propRollup, propOther, propOwners), rolesStr, newRoles, voStr) + g.tail()
+}
+
 func (g *signersGGen) genCallerBase() string {
 	rollup := g.r.Chance(60)
 	owners := g.owners(rollup)
@@ -1379,83 +1652,7 @@ func (g *signersGGen) genCallerBase() string {
 	}
 	switch x := g.r.Intn(100); {
 	case x < 14: // wscope
-		g.mt = "WriteScope"
-		var roles []int
-		existing := "none"
-		propRollup, propOther, propOwners := rollup, other, owners
-		var must, avail []signersGParty
-		if g.r.Chance(75) {
-			existing = signersGScope(rollup, other, owners)
-			must, avail = mustOwners, owners
-			switch y := g.r.Intn(100); {
-			case y < 25: // unchanged (Scope.Equals ignores the order of the owners)
-				if g.r.Bool() && len(owners) > 1 {
-					propOwners = append([]signersGParty{}, owners...)
-					for i, j := 0, len(propOwners)-1; i < j; i, j = i+1, j-1 {
-						propOwners[i], propOwners[j] = propOwners[j], propOwners[i]
-					}
-				}
-			case y < 50:
-				propOther = (other + 1) % 3
-			case y < 85:
-				propOwners = g.parties(1+g.r.Intn(3), false, rollup, true)
-				if g.r.Chance(50) {
-					propOwners = append(append([]signersGParty{}, owners...), propOwners...)
-					var uniq []signersGParty
-					for _, p := range propOwners {
-						if !signersGHas(uniq, p) {
-							uniq = append(uniq, p)
-						}
-					}
-					propOwners = uniq
-				}
-			default:
-				propRollup = !rollup
-				if !propRollup {
-					propOwners = signersGAllRequired(owners)
-				}
-			}
-		}
-		// the spec's roles: mostly such that the proposed owners have them
-		if g.r.Chance(75) {
-			roles = g.roles(propOwners, 2)
-		} else {
-			roles = g.roles(owners, 2)
-		}
-		if !rollup {
-			avail = nil
-		}
-		newRoles, coverRoles := "", roles
-		var newCover []int
-		if existing != "none" && g.r.Chance(20) {
-			// the proposed scope names another specification (its roles come from the proposed owners)
-			nr := g.roles(propOwners, 2)
-			if len(nr) == 0 { // a scope specification names at least one role
-				nr = []int{propOwners[0].role}
-			}
-			// the stored scope fits its own specification
-			roles = nil
-			for _, p := range g.subset(owners, 60) {
-				roles = append(roles, p.role)
-			}
-			if len(roles) == 0 {
-				roles = []int{owners[0].role}
-			}
-			coverRoles = roles
-			newRoles = " newroles=" + signersGRoles(nr)
-			newCover = nr
-			if g.r.Chance(30) {
-				// signers that only satisfy the NAMED specification: rejected since 89425229f
-				coverRoles = nr
-			}
-		}
-		rolesStr := signersGRoles(roles)
-		if newRoles != "" && g.r.Chance(15) {
-			// the stored scope's specification was deleted: the named one governs
-			rolesStr, coverRoles = "none", newCover
-		}
-		g.signersFor(must, avail, coverRoles, signersGAddrsOf(owners, propOwners))
-		return fmt.Sprintf("wscope existing=%s proposed=%s roles=%s%s", existing, signersGScope(propRollup, propOther, propOwners), rolesStr, newRoles) + g.tail()
+		return g.genWScope(rollup, owners, other, mustOwners, "")
 	case x < 24: // dscope
 		g.mt = "DeleteScope"
 		roles := g.roles(owners, 2)
@@ -1467,8 +1664,20 @@ func (g *signersGGen) genCallerBase() string {
 		if !rollup {
 			avail = nil
 		}
-		g.signersFor(mustOwners, avail, roles, signersGAddrsOf(owners))
-		return fmt.Sprintf("dscope scope=%s roles=%s", signersGScope(rollup, other, owners), rs) + g.tail()
+		// the scope may have a value owner: it must sign the deletion too
+		voStr, mention := "", signersGAddrsOf(owners)
+		if g.r.Chance(40) {
+			vo := g.valueOwner()
+			voStr = " vo=" + vo
+			g.alsoCover = []string{vo}
+			mention = append(mention, vo)
+			if g.r.Chance(15) {
+				// only the value owner signs
+				mustOwners, avail, roles = nil, nil, nil
+			}
+		}
+		g.signersFor(mustOwners, avail, roles, mention)
+		return fmt.Sprintf("dscope scope=%s roles=%s%s", signersGScope(rollup, other, owners), rs, voStr) + g.tail()
 	case x < 33: // upd
 		g.mt = "AddScopeDataAccess"
 		if g.r.Bool() {
@@ -1537,7 +1746,8 @@ func (g *signersGGen) genCallerBase() string {
 					ex = append(ex, owners[0])
 				}
 			} else {
-				ex = g.parties(1+g.r.Intn(2), false, false, true)
+				// written while the scope had party rollup: optional flags stay behind
+				ex = g.parties(1+g.r.Intn(2), false, g.r.Chance(25), true)
 			}
 			existing = signersGParties(ex)
 		}
@@ -1572,8 +1782,16 @@ func (g *signersGGen) genCallerBase() string {
 					session[i].opt = !session[i].opt
 				}
 			}
+			if g.r.Chance(8) {
+				// written while the scope had no party rollup: a party that is no scope owner
+				if p := g.party(false, true); !signersGHas(session, p) {
+					session = append(session, p)
+				}
+			}
 		} else {
-			session = g.parties(1+g.r.Intn(3), false, false, true)
+			// a session written while the scope HAD party rollup keeps its optional flags when
+			// the scope is rewritten with rollup off
+			session = g.parties(1+g.r.Intn(3), false, g.r.Chance(30), true)
 		}
 		old := "none"
 		var oldP []signersGParty
@@ -1590,7 +1808,7 @@ func (g *signersGGen) genCallerBase() string {
 					oldP = append(oldP, g.parties(1, false, true, true)...)
 				}
 			} else {
-				oldP = g.parties(1+g.r.Intn(2), false, false, true)
+				oldP = g.parties(1+g.r.Intn(2), false, g.r.Chance(30), true)
 			}
 			old = signersGParties(oldP)
 		}
@@ -1601,6 +1819,10 @@ func (g *signersGGen) genCallerBase() string {
 			g.signersFor(must, session, roles, signersGAddrsOf(owners, session, oldP))
 		} else {
 			must = append(signersGAllRequired(session), signersGAllRequired(oldP)...)
+			if g.r.Chance(35) {
+				// the signers go by the optional flags (which mean nothing without rollup)
+				must = append(append([]signersGParty{}, session...), oldP...)
+			}
 			g.signersFor(must, nil, nil, signersGAddrsOf(session, oldP))
 		}
 		return fmt.Sprintf("wrecord scope=%s session=%s old=%s roles=%s", signersGScope(rollup, other, owners), signersGParties(session), old, signersGRoles(roles)) + g.tail()
@@ -1866,10 +2088,69 @@ func (e *signersEnv) run(line string, out *Out) {
 			}
 		}
 	}
+	if kind == "wscope" || kind == "dscope" || kind == "wrecord" {
+		e.countDims(kind, line, res, out)
+	}
 	if strings.Contains(line, "/1/") || kind == "wp" {
 		out.Count("mode:rollup")
 	} else {
 		out.Count("mode:plain")
+	}
+}
+
+// countDims: the input dimensions of the scope-write / record-write ops (for the evidence).
+func (e *signersEnv) countDims(kind, line, res string, out *Out) {
+	op, err := signersParse(line)
+	if err != nil {
+		return
+	}
+	first := signersFirst(res)
+	switch kind {
+	case "wscope":
+		ex, pr := op.kv["existing"], op.kv["proposed"]
+		vo, hasVO := op.kv["vo"]
+		pvo := op.kv["pvo"]
+		voChanges := hasVO && vo != "-" && pvo != "-" && vo != pvo
+		if hasVO {
+			out.Count("wscope:value-owner-fields")
+		}
+		if ex == "none" {
+			return
+		}
+		fe, fp := strings.SplitN(ex, "/", 3), strings.SplitN(pr, "/", 3)
+		if len(fe) != 3 || len(fp) != 3 {
+			return
+		}
+		n := 0
+		if fe[0] != fp[0] {
+			n++
+			out.Count("wscope:changes-rollup-flag")
+		}
+		if fe[1] != fp[1] {
+			n++
+		}
+		if fe[2] != fp[2] {
+			n++
+		}
+		if _, ok := op.kv["newroles"]; ok {
+			n++
+		}
+		if voChanges {
+			n++
+			out.Count("wscope:changes-value-owner:" + first)
+			if fe[0] != fp[0] {
+				out.Count("wscope:changes-value-owner-and-rollup-flag:" + first)
+			}
+		}
+		out.Count(fmt.Sprintf("wscope:fields-changed:%d", n))
+	case "dscope":
+		if vo, ok := op.kv["vo"]; ok && vo != "-" {
+			out.Count("dscope:value-owner:" + first)
+		}
+	case "wrecord":
+		if strings.HasPrefix(op.kv["scope"], "0/") && (strings.Contains(op.kv["session"], ":o") || strings.Contains(op.kv["old"], ":o")) {
+			out.Count("wrecord:plain-scope-optional-session-party:" + first)
+		}
 	}
 }
 
